@@ -8,6 +8,8 @@ from vlib.runner import Clause
 from vlib import gen, objs, digest
 from vlib.tol import close, describe
 
+from menpo.transform.piecewiseaffine.base import TriangleContainmentError
+
 PROPERTY = "C02"
 RULE = (
     "Hypothesis draws a shape (8 classes, 2-D/3-D, 3-9 points, 0-3 landmark groups each of any shape class) and a "
@@ -108,6 +110,29 @@ def c_case(c, ctx):
 
     ctx.expect(type(r) is type(shape), "result_class", "%s -> %s" % (type(shape).__name__, type(r).__name__))
     scale = 1.0 + float(np.abs(on_array).max()) if on_array.size else 1.0
+    bare0 = bare.copy()
+    # "applying the transform to the bare coordinate array gives the same numbers" must also hold when the caller
+    # re-uses its buffer: refill the very array that was applied with other coordinates of the same shape (the
+    # rows reversed and nudged, still inside the domain for piecewise-affine maps) and apply again; a fresh
+    # instance of the same transform applied to the same values is the history-free reference
+    if bare.shape[0] >= 2:
+        refill = 0.75 * bare[::-1] + 0.25 * bare  # convex combinations of in-domain points: still in the (convex) domain
+        fresh = objs.build_transform(tc)
+        try:
+            want2 = fresh.apply(refill.copy())
+        except TriangleContainmentError:
+            want2 = None
+        if want2 is not None:
+            buf = refill.copy()
+            got2 = t.apply(buf, batch_size=bs)  # new values: the transform has to evaluate them
+            ctx.expect(close(got2, want2, rtol=0, atol=1e-12 * scale), "second_apply_depends_on_first",
+                       lambda: "apply of other values after a first apply\n" + describe(got2, want2))
+            buf[:] = bare0  # the caller refills its buffer in place ...
+            got3 = t.apply(buf, batch_size=bs)  # ... and applies it again
+            ctx.expect(close(got3, on_array, rtol=0, atol=1e-12 * scale), "reused_buffer_gives_stale_result",
+                       lambda: "array refilled in place and applied again\n" + describe(got3, on_array))
+            ctx.event("buffer reuse checked")
+    bare = bare0
     ctx.expect(close(r.points, on_array, rtol=0, atol=1e-12 * scale), "points_vs_bare_array", lambda: describe(r.points, on_array))
     want = ref_eval(tc, t, bare)
     if want is not None:
